@@ -253,10 +253,82 @@ proof! {
 	}
 }
 
+const RULE_SHAPE: u64 = match option_env!("VH_SHAPE") { Some(s) => (s.as_bytes()[0] - b'0') as u64, None => 0 };
+
+proof! {
+	[hash_mix, sort, zeroize] fn body_read_time_rules() {
+		// TransactionBody::validate_read (what runs on every decoded transaction / block body) on
+		// a body of 1 input, 1 output and 2 kernels: accepted exactly when the kernels are strictly
+		// ascending by hash, the input does not spend the body's own output (no cut-through left
+		// inside one body) and - with the NRD feature on - two NRD kernels do not share an excess;
+		// each refusal carries its own error
+		use grin_core::core::hash::Hashed;
+		use grin_core::core::transaction::{self, CommitWrapper, FeeFields, KernelFeatures, NRDRelativeHeight, OutputFeatures, Weighting};
+		use grin_core::core::{Inputs, Output, TransactionBody, TxKernel};
+		use grin_util::secp::pedersen::{Commitment, RangeProof};
+		use grin_util::secp::Signature;
+		env::set_chain_type(grin_core::global::ChainTypes::Mainnet);
+		let nrd_on: bool = nd::any();
+		env::set_nrd_enabled(nrd_on);
+		let commit = |a: u8, b: u8| {
+			let mut c = [0u8; 33];
+			c[0] = 8;
+			c[1] = a;
+			c[2] = b;
+			Commitment(c)
+		};
+		let ci = commit(nd::any(), 1);
+		let co = commit(nd::any(), 1);
+		let fee: FeeFields = {
+			let fb = 7u64.to_be_bytes();
+			grin_core::ser::deserialize_default(&mut &fb[..]).unwrap()
+		};
+		let kern = |nrd: bool, e: u8| TxKernel {
+			features: if nrd { KernelFeatures::NoRecentDuplicate { fee, relative_height: NRDRelativeHeight::new(10).unwrap() } } else { KernelFeatures::Plain { fee } },
+			excess: commit(e, 2),
+			excess_sig: Signature::from_raw_data(&[1u8; 64]).unwrap(),
+		};
+		let (n0, n1): (bool, bool) = (nd::any(), nd::any());
+		let (e0, e1): (u8, u8) = (nd::any(), nd::any());
+		let k0 = kern(n0, e0);
+		let k1 = kern(n1, e1);
+		let (h0, h1) = (k0.hash(), k1.hash());
+		// shape per query (VH_SHAPE): 0 = 1 input / 1 output / 1 kernel (the cut-through rule),
+		// 1 = no inputs / no outputs / 2 kernels (ordering and the NRD rule); both at once did not
+		// finish in 660 s
+		let body = if RULE_SHAPE == 0 {
+			TransactionBody {
+				inputs: Inputs::CommitOnly(vec![CommitWrapper::from(ci)]),
+				outputs: vec![Output::new(OutputFeatures::Plain, co, RangeProof { proof: [0u8; 675], plen: 0 })],
+				kernels: vec![k0],
+			}
+		} else {
+			TransactionBody { inputs: Inputs::default(), outputs: vec![], kernels: vec![k0, k1] }
+		};
+		let r = body.validate_read(Weighting::NoLimit);
+		let nrd_dup = RULE_SHAPE == 1 && nrd_on && n0 && n1 && e0 == e1;
+		let sorted = RULE_SHAPE == 0 || h0 < h1;
+		let cut = RULE_SHAPE == 0 && ci.0 == co.0;
+		check!(r.is_ok() == (!nrd_dup && sorted && !cut), "accepted exactly when kernels ascend strictly, no own output is spent and no NRD excess repeats");
+		if nrd_dup {
+			check!(matches!(r, Err(transaction::Error::InvalidNRDRelativeHeight)), "a repeated NRD excess is refused first");
+		} else if !sorted {
+			check!(matches!(r, Err(transaction::Error::Serialization(_))), "unsorted or duplicate kernels are a serialization error");
+		} else if cut {
+			check!(matches!(r, Err(transaction::Error::CutThrough)), "an input spending the body's own output is CutThrough");
+		}
+		cover!(r.is_ok(), "accepted");
+		cover!(r.is_err(), "refused");
+		core::mem::forget(r);
+		core::mem::forget(body);
+	}
+}
+
 pub const HARNESSES: &[(&str, fn())] = &[
 	("c12::cut_through_2_2", cut_through_2_2),
 	("c12::cut_through_1_2", cut_through_1_2),
 	("c12::cut_through_2_1", cut_through_2_1),
 	("c12::cut_through_3_3", cut_through_3_3),
 	("c12::cut_through_err_iff_duplicate_2_2", cut_through_err_iff_duplicate_2_2),
+	("c12::body_read_time_rules", body_read_time_rules),
 ];
